@@ -1,8 +1,8 @@
 import json
 import vf
 
-H_INDEX = dict(pkg_dir="index", run="TestVerifC21$", files=["index/zz_verif_c01_test.go", "index/zz_verif_c21_test.go"], n_quick=150, n_thorough=3000)
-H_TOTAL = dict(pkg_dir="search", run="TestVerifC21Total$", files=["search/zz_verif_c21_test.go"], n_quick=30, n_thorough=400)
+H_INDEX = dict(pkg_dir="index", run="TestVerifC21$", files=["index/zz_verif_c01_test.go", "index/zz_verif_c21_test.go"], n_quick=120, n_thorough=3000)
+H_TOTAL = dict(pkg_dir="search", run="TestVerifC21Total$", files=["search/zz_verif_c21_test.go"], n_quick=24, n_thorough=400)
 IMPORTS = ["From ZV Require Import Lib.Base Model.SearchCore Model.SearchLimits."]
 RULE = ("C01's corpora (real shards: 1-3 repositories, 1-10 documents, tombstones) x broad and random query trees x limit settings "
         "(ShardMaxMatchCount in {default,1..6,100}, ShardRepoMaxMatchCount in {0,1,2,3}, both, LineMatches / ChunkMatches) and cancellation "
